@@ -32,7 +32,7 @@ _SHORT = st.lists(st.sampled_from(FRAGS), min_size=1, max_size=5).map(''.join)
 PAYLOAD = st.one_of(_SHORT, _SHORT, _SHORT,
                     st.tuples(_SHORT, st.sampled_from([300, 1100, 2100, 5000]), st.sampled_from(['a', '%41', 'é', '&'])).map(lambda t: t[0] + t[2] * t[1]),
                     st.tuples(_SHORT, st.sampled_from([300, 1100, 2100, 5000]), st.sampled_from(['a', '/', 'b=1&'])).map(lambda t: t[2] * t[1] + t[0]))
-KINDS = ['404', '404-root', '404-near-route', '405', '405-wild', '400-chunked', '400-path', '500', 'critical-handler', 'critical-charset']
+KINDS = ['500-decode', '500-bytes', '500-object', '404', '404-root', '404-near-route', '405', '405-wild', '400-chunked', '400-path', '500', 'critical-handler', 'critical-charset']
 
 
 class Skel(HTMLParser):
@@ -81,6 +81,16 @@ def build_app(kind, payload):
     def crash():
         raise RuntimeError(payload)
     app.route('/crash', callback=crash)
+
+    def crash2():
+        # failures whose exception objects carry things a JSON document cannot hold as they are (bytes, sets, other exceptions, request data)
+        q = app.request.query.get('how', '')
+        if q == 'decode':
+            (payload.encode('utf8') + b'\xff').decode('utf8')
+        if q == 'bytes':
+            raise ValueError(payload.encode('utf8'), {1, 2}, KeyError(payload))
+        raise LookupError(object(), payload)
+    app.route('/crash2', callback=crash2)
 
     def body():
         return app.request.body.read()
@@ -166,6 +176,8 @@ def _make_request(kind, payload, where, accept):
         return make_environ('GET', '/', qs=qs, headers=headers, raw_path=raw), 400
     if kind == '500':
         return make_environ('GET', '/crash', qs=qs, headers=headers), 500
+    if kind.startswith('500-'):
+        return make_environ('GET', '/crash2', qs='how=' + kind[4:] + '&' + qs, headers=headers), 500
     if kind == 'critical-charset':
         return make_environ('GET', '/charset', qs=qs, headers=headers), 500
     raise AssertionError(kind)
